@@ -44,6 +44,7 @@ type nodeStats struct {
 	Scenarios                                                                          int
 	C08Compared, C08Resets, TwoRoundScenarios, C08InDealsWindow, ReinitProbes, Reinits int
 	CancelledRounds                                                                    int
+	C08Late, C08StampsMoved                                                            int
 }
 
 func tsTok(t time.Time) string {
@@ -603,6 +604,26 @@ func (r *nodeRun) mutate(c *cluster, obs *vnode, m storage.Message, otherRound s
 		x.Data = []byte(`{"ParticipantId":-1,"CreatedAt":"2023-01-01T00:00:00Z"}`)
 		x.Signature = ed25519.Sign(c.nodes[senderIdx].kp.Priv, x.Data)
 		add("negative-id-signed", "C18", x, false)
+		// a signing proposal of a registered participant whose tasks name positions of the built-in list
+		// nobody would propose: before it, across its end, reversed (the API refuses them; the board does not)
+		if m.Event == "event_signing_start" {
+			var req requests.SigningBatchProposalStartRequest
+			if json.Unmarshal(m.Data, &req) == nil {
+				for _, rg := range [][2]int{{-1, 1}, {-3, -1}, {18630, 18635}, {7, 3}, {-2, 0}} {
+					y := clone()
+					q := req
+					q.SigningTasks = []requests.SigningTask{{MessageID: "hostile", File: "hostile", RangeStart: rg[0], RangeEnd: rg[1]}}
+					if r.rng.Intn(2) == 0 {
+						q.SigningTasks = append([]requests.SigningTask{{MessageID: "p", File: "p", Payload: []byte{1, 2}}}, q.SigningTasks...)
+					}
+					if bz, err := json.Marshal(q); err == nil {
+						y.Data = bz
+						y.Signature = ed25519.Sign(c.nodes[senderIdx].kp.Priv, y.Data)
+						add(fmt.Sprintf("hostile-range-%d-%d", rg[0], rg[1]), "C18", y, false)
+					}
+				}
+			}
+		}
 	}
 	return out
 }
